@@ -148,18 +148,18 @@ Definition nonempty (s : string) : bool := match s with EmptyString => false | _
 
 Definition dummy_span : span := mkSpan 0 0 "" "" "" "" false "".
 
-(* the bracketed annotation of one group, read from the buffer `cur` (Go: detailResult);
+(* the bracketed annotation of one group; `rd b e` reads bytes [b,e) of the buffer (Go: detailResult);
    ngroups = len(m) *)
-Definition annotation (ngroups : nat) (cur : string) (g : group) : string :=
+Definition annotation_with (rd : nat -> nat -> string) (ngroups : nat) (g : group) : string :=
   let spans := sort_end (g_spans g) in
   let size := length spans in
   let lst := last spans dummy_span in
   let subs := removelast spans in
   let parts := filter nonempty
-                 (map (fun s => ssub cur (Z.to_nat (sp_b s)) (Z.to_nat (sp_e s)) ++ "=" ++ sp_ret s) subs) in
+                 (map (fun s => rd (Z.to_nat (sp_b s)) (Z.to_nat (sp_e s)) ++ "=" ++ sp_ret s) subs) in
   let subtxt := if Nat.ltb 1 size then
                   (match parts with [] => "" | _ => "," ++ join "," parts end) else "" in
-  let base := ssub cur (Z.to_nat (g_b g)) (Z.to_nat (g_e g)) in
+  let base := rd (Z.to_nat (g_b g)) (Z.to_nat (g_e g)) in
   let exprText := if nonempty (sp_expr lst) then sp_expr lst else base in
   let partRet := sp_ret lst in
   let suffix0 := if nonempty (sp_suffix lst) then sp_suffix lst else "=" in
@@ -177,6 +177,8 @@ Definition annotation (ngroups : nat) (cur : string) (g : group) : string :=
   let d3 := d2 ++ subtxt ++ "]" in
   let d4 := if Nat.eqb ngroups 1 && String.eqb d3 ("[" ++ base ++ "]") then "" else d3 in   (* rule 1.3 *)
   if Nat.ltb 400 (String.length d4) then "[略]" else d4.
+Definition annotation (ngroups : nat) (cur : string) (g : group) : string :=
+  annotation_with (ssub cur) ngroups g.
 
 Definition group_ret (g : group) : string := sp_ret (last (sort_end (g_spans g)) dummy_span).
 
@@ -208,6 +210,7 @@ Definition finish (text ret : string) : string :=
   if String.eqb t (trim_space ret) then "" else t.
 
 Definition make_detail_res (data : string) (offset : nat) (spans : list span) (ret : string) : dres :=
+  if negb (Nat.leb offset (String.length data)) then DPanic else      (* data[:offset] *)
   match build_groups (Z.of_nat offset) spans (-1)%Z [] with
   | GPanic => DPanic
   | GOk m =>       (* m reversed: folding from its head = Go's loop from len(m)-1 down to 0 *)
@@ -229,6 +232,19 @@ Definition get_detail_text (data : string) (offset : nat) (spans : list span) (r
   | _ => if nonempty cache then (cache, cache)
          else let t := make_detail data offset spans ret in (t, t)
   end.
+
+(* the part of the VM state that the property talks about; GetDetailText as a state transformer *)
+Record vmstate (V R : Type) := mkVm {
+  vm_ret : string;          (* Ret.ToString() *)
+  vm_vars : V;              (* variables *)
+  vm_rng : R;               (* generator state *)
+  vm_data : string; vm_offset : nat; vm_spans : list span;
+  vm_cache : string }.
+Arguments mkVm {V R}. Arguments vm_ret {V R}. Arguments vm_vars {V R}. Arguments vm_rng {V R}.
+Arguments vm_data {V R}. Arguments vm_offset {V R}. Arguments vm_spans {V R}. Arguments vm_cache {V R}.
+Definition get_detail_text_vm {V R} (st : vmstate V R) : string * vmstate V R :=
+  let '(t, c) := get_detail_text (vm_data st) (vm_offset st) (vm_spans st) (vm_ret st) (vm_cache st) in
+  (t, mkVm (vm_ret st) (vm_vars st) (vm_rng st) (vm_data st) (vm_offset st) (vm_spans st) c).
 
 (* the groups in source order (for statements) *)
 Definition groups_of (offset : nat) (spans : list span) : list group :=
